@@ -112,6 +112,8 @@ class C18(Prop):
             "prelude": gen.prelude(),
             # a second live connection in the same process (interleaved with this one, or blocked in a send)
             "companion": gen.companion(),
+            # connect() options that must not matter here
+            "copts_noise": gen.copts_noise(("poll", "ping_timeout", "close_timeout",)),
         })
 
     def enumerations(self, tier):
